@@ -3,29 +3,26 @@ from analysis.facts import norm
 from analysis.cfg import Cfg
 from analysis.flow import DefUse, backward, find_calls, callee_is, callee_ends, op_local, op_const, bool_branch, variant_arms
 from analysis.table import PathWalker, describe_val
-from rules.common import need
+from rules.common import need, unit
 
 
 def _ret_desc(b, du, path):
-    r = None
-    for bid in path:
-        for s in b.blocks[bid]["stmts"]:
-            if s["k"] == "assign" and s["lhs"]["l"] == 0 and not s["lhs"]["proj"]:
-                rv = s["rhs"]
-                if rv["k"] == "use" and rv["a"]["k"] == "const":
-                    r = ("const", rv["a"].get("v"))
-                else:
-                    r = ("value",)
-        t = b.blocks[bid]["term"]
-        if t["k"] == "call" and t["dest"]["l"] == 0:
-            r = ("call", norm(t.get("callee") or ""))
-    return r
+    """the function's return value on this path: a constant, the result of a call, or something computed"""
+    from analysis.table import value_on_path
+    v = value_on_path(b, path, 0)
+    if v is None:
+        return None
+    if v[0] == "const":
+        return ("const", v[1])
+    if v[0] == "call":
+        return ("call", v[1])
+    return ("value",)
 
 
 def join_abi_rule(run, fh, ff, rid):
     run.rule(rid, "C ABI of join: the hook encodes Ok(Ok(Some(p)))->p, Ok(Ok(None))->0, every failure -> -1; the facade decodes <0 -> Err, 0 -> Ok(None), >0 -> the boxed result; a task body never fails through the -1 channel", floor=2, template="T6 (writer/reader tables agree)")
     for fn in ("task_join", "task_timeout_join"):
-        b = need(run, rid, fh, fn)
+        b = unit(run, rid, fh, fn)      # an outcome-to-code helper shared by the two entry points is part of each
         if b is None:
             continue
         w = PathWalker(b)
@@ -72,7 +69,7 @@ def join_abi_rule(run, fh, ff, rid):
     if ff is None:
         return
     for fn in ("JoinHandle::join", "JoinHandle::timeout_join"):
-        b = need(run, rid, ff, fn)
+        b = unit(run, rid, ff, fn)      # likewise a shared `decode(code)` helper
         if b is None:
             continue
         w = PathWalker(b)
